@@ -8,17 +8,21 @@ case analysis).  Tie to the code: `Drv/C24` runs `respond` and the harness sends
 request to a live in-process server and compares status and body shape.
 
 **Claimed as partial.**  "The server never dies / every request is answered" is established
-by the live runs only (hyper/axum/tokio are outside the model).  Three places where the
-unchanged code does *not* satisfy the property's shape requirement are mirrored in the model
-and excluded from the `_partial` theorems by an explicit decidable hypothesis; each has a
-negative witness below:
+by the live runs only (hyper/axum/tokio are outside the model).  Places where the unchanged
+code does *not* satisfy the property's shape requirement are mirrored in the model and
+excluded from the `_partial` theorems by an explicit decidable hypothesis; each has a
+negative witness below.  Reproduced on the real server by the harness (known findings):
 
 * unknown path → axum's fallback `404` with an **empty** body  (`Route.unknownPath`);
 * registered path, other method → `405` with an **empty** body (`Route.wrongMethod`);
-* a body that exceeds the limit *while streaming* (no or understated `Content-Length`) is
-  answered `400` (`invalid_request` / `read_body`) instead of `413`;
-* a panic under `/delete` (the only write handler that does not use `spawn_blocking`) ends the
-  connection without a response.
+* a body that exceeds the limit *while streaming* (chunked, no `Content-Length`) is answered
+  `400` (`invalid_request` / `read_body`) instead of `413`.
+
+Read off the code but **not reproduced** (no request is known that makes the library panic
+under `/delete`; the branch of the model is therefore not covered by the correspondence):
+
+* a panic under `/delete` (the only write handler that does not use `spawn_blocking`) would
+  unwind the connection task and end the connection without a response.
 
 Full statement (false of the unchanged code, see the witnesses):
 `theorem respond_wellformed (r) (f) : wellFormed (respond r f) = true` and
